@@ -33,10 +33,30 @@ func (o *c14Obs) violate(w *gWorld, ev *gEvent, class, summary string, extra map
 	o.r.Violation(class, summary, gWitness(w, ev.I, extra))
 }
 
+// joinedGen: did member id's latest join reply carry generation gen? For ids whose bookkeeping was changed
+// by the overlapped pair the event belongs to, the value before the pair counts as well (the order of the two
+// requests is not known).
+func c14Joined(w *gWorld, ev *gEvent, id string, gen int32) (bool, int32) {
+	info := w.ids[id]
+	if info == nil {
+		return false, -1
+	}
+	if info.LastJoinGen == gen {
+		return true, gen
+	}
+	if prev, ok := ev.PrevJoin[id]; ok && prev == gen {
+		return true, gen
+	}
+	return false, info.LastJoinGen
+}
+
 func (o *c14Obs) observe(w *gWorld, ev *gEvent) {
 	defer func() {
-		if !ev.After.Exists {
-			o.epoch++
+		for _, tr := range ev.afters() { // overlapped requests: the group was absent at SOME instant during the pair
+			if !tr.Exists {
+				o.epoch++
+				break
+			}
 		}
 	}()
 	tr := ev.After
@@ -46,6 +66,10 @@ func (o *c14Obs) observe(w *gWorld, ev *gEvent) {
 			return
 		}
 		o.r.Count("join_replies", 1)
+		if ev.overlapped() {
+			o.observeOverlappedJoin(w, ev)
+			return
+		}
 		k := o.key(ev.Gen)
 		// the leader named in ANY reply is a current member
 		if !tr.Exists || ev.Leader == "" || !tr.has(ev.Leader) {
@@ -120,8 +144,15 @@ func (o *c14Obs) observe(w *gWorld, ev *gEvent) {
 			return
 		}
 		k := o.key(ev.ReqGen)
-		b := ev.Before
-		current := b.Exists && b.Gen == ev.ReqGen && b.has(ev.ReqID) && tr.Exists && tr.Gen == ev.ReqGen
+		bf := ev.Before
+		current := bf.Exists && bf.Gen == ev.ReqGen && bf.has(ev.ReqID) && tr.Exists && tr.Gen == ev.ReqGen
+		if ev.overlapped() { // current in EVERY snapshot taken while the pair was in flight
+			for _, c := range ev.Cands {
+				if !(c.Exists && c.Gen == ev.ReqGen && c.has(ev.ReqID)) {
+					current = false
+				}
+			}
+		}
 		if !current {
 			return
 		}
@@ -137,6 +168,111 @@ func (o *c14Obs) observe(w *gWorld, ev *gEvent) {
 			o.leaderSynced[k] = true
 		}
 	}
+}
+
+// observeOverlappedJoin judges the reply of a join that was in flight together with another request. The
+// reply was computed from the group as it was at SOME instant between the first request's invocation and its
+// return; the boundary snapshots taken during that interval (ev.Cands) are the candidates. The reply is
+// objected to only if no candidate justifies it. The joining member itself counts as a member / as joined.
+func (o *c14Obs) observeOverlappedJoin(w *gWorld, ev *gEvent) {
+	o.r.Count("join_replies_overlapped_judged_against_all_snapshots", 1)
+	k := o.key(ev.Gen)
+	// reply-intrinsic part (no snapshot needed)
+	if ev.Leader == "" {
+		o.violate(w, ev, "reply_names_leader_that_is_not_a_member", fmt.Sprintf("join reply (code %d, generation %d) names no leader", ev.Code, ev.Gen), nil)
+		return
+	}
+	if ev.HasList && !(ev.Code == 0 && ev.MemberID == ev.Leader) {
+		o.violate(w, ev, "member_list_in_non_leader_or_unsuccessful_reply", fmt.Sprintf("join reply to %s (code %d, leader %s) carries %d members", ev.MemberID, ev.Code, ev.Leader, len(ev.Members)), nil)
+		return
+	}
+	if ev.Code == 0 && ev.MemberID == ev.Leader && !ev.HasList {
+		o.violate(w, ev, "leader_success_reply_without_member_list", fmt.Sprintf("successful join reply to leader %s has an empty member list", ev.MemberID), nil)
+		return
+	}
+	leaderOK, absent := false, false
+	var members [][]string
+	for _, c := range ev.Cands {
+		if !c.Exists {
+			absent = true
+			continue
+		}
+		if c.has(ev.Leader) || ev.Leader == ev.MemberID {
+			leaderOK = true
+		}
+		members = append(members, c.memberIDs())
+	}
+	if !leaderOK {
+		o.violate(w, ev, "reply_names_leader_that_is_not_a_member", fmt.Sprintf("overlapped join reply (code %d, generation %d) names leader %q, which is a member in none of the snapshots taken while the request was in flight: %v", ev.Code, ev.Gen, ev.Leader, members), nil)
+		return
+	}
+	if ev.Code != 0 {
+		if ev.Code == 27 {
+			o.sawWait[k] = true
+		}
+		return
+	}
+	if absent {
+		// the group did not exist at some instant of the pair: it was (re-)created by one of the two requests
+		// and the state right after its creation was not observed. Not judged.
+		o.r.Count("join_success_overlapped_group_created_during_pair_not_judged", 1)
+		return
+	}
+	// success in generation g: at some instant, g was the generation and everybody (else) had joined g
+	justified := false
+	var why []string
+	for _, c := range ev.Cands {
+		if c.Gen != ev.Gen {
+			why = append(why, fmt.Sprintf("[generation %d]", c.Gen))
+			continue
+		}
+		var lag []string
+		for _, id := range c.memberIDs() {
+			if id == ev.MemberID {
+				continue
+			}
+			if ok, g := c14Joined(w, ev, id, ev.Gen); !ok {
+				lag = append(lag, fmt.Sprintf("%s(last joined generation %d)", id, g))
+			}
+		}
+		if len(lag) == 0 {
+			justified = true
+			break
+		}
+		why = append(why, fmt.Sprintf("[generation %d, not joined: %v]", c.Gen, lag))
+	}
+	if !justified {
+		o.violate(w, ev, "join_success_before_all_members_rejoined", fmt.Sprintf("join of %s, in flight together with another request, answered 0 in generation %d; no snapshot of the group taken while it was in flight shows generation %d with every other member joined: %v", ev.MemberID, ev.Gen, ev.Gen, why), nil)
+		return
+	}
+	if ev.MemberID == ev.Leader {
+		// the list handed to the leader is the membership of one of the snapshots (the leader itself included)
+		listed := make([]string, 0, len(ev.Members))
+		for id := range ev.Members {
+			listed = append(listed, id)
+		}
+		sort.Strings(listed)
+		match := false
+		for _, c := range ev.Cands {
+			ids := c.memberIDs()
+			if !c.has(ev.MemberID) {
+				ids = append(ids, ev.MemberID)
+				sort.Strings(ids)
+			}
+			if fmt.Sprint(ids) == fmt.Sprint(listed) {
+				match = true
+			}
+		}
+		o.listChecked++
+		if !match {
+			o.violate(w, ev, "leader_member_list_differs_from_membership", fmt.Sprintf("leader was told members %v; memberships observed while the request was in flight: %v", listed, members), nil)
+			return
+		}
+	}
+	if !o.completed[k] {
+		o.completed[k] = true
+	}
+	o.leaderOf[k] = ev.Leader
 }
 
 func TestVerifC14(t *testing.T) {
@@ -190,4 +326,42 @@ func TestVerifC14(t *testing.T) {
 	r.Floor("sync_after_completion_judged", 200)
 	r.Floor("group_states", 12)
 	r.Exhaustive(false) // a sample of histories; the bounded-exhaustive part is leg enum
+}
+
+// Overlap leg: two requests in flight. See harness/_shared/group/overlap_test.go.
+func TestVerifC14Overlap(t *testing.T) {
+	r := verifkit.Start(t, "C14", "overlap")
+	gSeedSalt = r.Seed
+	gRealTimerStart()
+	defer r.Finish("real GroupCoordinator over the real InMemoryStore behind the recording store decorator, synctest virtual time, TWO requests in flight: PRNG scenarios for 2-4 clients in which the group is brought into some phase (forming, all re-joined but leader not synced, stable, disturbed by a leave / new member / changed subscription with all or some members re-joined) and then a pair (A,B) of requests by different clients is overlapped: the decorator parks one store call of A (PutConsumerGroup of a join that may complete the rebalance, of a sync, heartbeat or leave; the Metadata lookup of the leader's sync; CommitConsumerOffset; FetchConsumerGroup; before or after the real store executed it), B (leave, join of a new member, re-join with the same or another subscription, heartbeat, commit, sync, or a time advance that expires sessions) is sent while A is parked, then A is released; settle rounds and ordinary requests follow. If the coordinator holds a lock across A's store call (TryLock probe of its mutex fields) B is simply sent after A and everything is judged as in leg 'group'. Otherwise the two replies are judged after both have arrived, against EVERY boundary snapshot of the stored group taken while A was in flight (before A, A parked, after B, after A): a join reply is objected to only if no snapshot justifies it (named leader a member of none; code 0 in generation g but no snapshot with generation g in which every other stored member's latest join reply, before or after the pair, carried g; leader's list equal to no snapshot's membership); the reply-intrinsic rules (member list only and always in the leader's code-0 reply) hold unconditionally; a pair during which the group was absent at some instant is not judged for the success rule. sync-after-completion is judged for an overlapped sync only if it was a stored member of the stored generation in every snapshot. non-trivial = case in which A was parked and a >=2-member generation completed",
+		"'has joined the current generation' = the member's latest JoinGroup reply (any code) carried that generation", "the real-time bound under which B is awaited while A is parked is a scheduling aid: if it expires nothing is judged and the case is cut")
+	p := gDefaultOvlProfile
+	p.WA = map[string]int{"syncleader": 3, "sync": 1, "join": 8, "joinresub": 2, "joinfresh": 2, "hb": 1, "commit": 3, "leave": 1}
+	n := r.N(500, 8000)
+	for ci := 0; ci < n; ci++ {
+		rng := r.Rand(ci)
+		cfg, ops := gGenOverlapCase(rng, p, fmt.Sprintf("o%d", ci))
+		o := &c14Obs{r: r, completed: map[string]bool{}, leaderOf: map[string]string{}, leaderSynced: map[string]bool{}, sawWait: map[string]bool{}}
+		w := gRunCase(t, cfg, ops, int64(ci)*100000, func(w *gWorld) {
+			w.obs = append(w.obs, o.observe, func(w *gWorld, ev *gEvent) { r.Seen("group_states", w.stateSig(ev.After)) })
+		})
+		if w.blocked {
+			r.Inconclusive(fmt.Sprintf("case %d: a coordinator call never returned", ci))
+		}
+		parked := w.ovl.LockHeld+w.ovl.Inside > 0
+		r.Case(gOpsSig(w), parked && o.successMulti > 0)
+		r.Count("steps", int64(len(w.log)))
+		r.Count("generations_completed_multi_member", int64(o.successMulti))
+		r.Count("generations_completed_after_somebody_waited", int64(o.barrierHeld))
+		r.Count("leader_member_lists_checked", int64(o.listChecked))
+		gOvlAccount(w, r.Count, r.Seen)
+		if ci < 2 {
+			r.Sample(gWitness(w, -1, nil))
+		}
+	}
+	r.Floor("join_replies", 2000)
+	r.Floor("generations_completed_multi_member", 100)
+	r.Floor("overlap_a_parked", int64(r.N(200, 3000)))
+	r.Floor("overlap_b_ran_inside_a_store_call", 5) // CommitConsumerOffset is called without the lock even by the unchanged coordinator
+	r.Exhaustive(false)
 }
